@@ -638,6 +638,15 @@ func parentMain(p *erased, t Tier, seed uint64, b Budget, workersOverride int) i
 				return
 			}
 
+			// last resort against a worker whose own watchdog cannot run: the
+			// parent kills it well after every budget has passed (reported as
+			// harness trouble, never as a violation)
+			killer := time.AfterFunc(time.Duration(b.WallS+4*b.CaseS+300)*time.Second, func() {
+				fmt.Fprintf(os.Stderr, "WATCHDOG property=%s worker %d killed by the parent after all budgets passed\n", p.ID, i)
+				_ = cmd.Process.Kill()
+			})
+			defer killer.Stop()
+
 			sc := bufio.NewScanner(so)
 			sc.Buffer(make([]byte, 1<<20), 1<<28)
 
